@@ -575,7 +575,9 @@ fn check_program(env: &Env, src: &str, compile: bool) -> Result<(), String> {
             if l0 != l1 {
                 return Err(format!("[{tag}] reloaded locations of proc {} differ", p0.name));
             }
+            note_nested_locations(&format!("program proc {}", p0.name), p0.body.nodes(), p1.body.nodes());
         }
+        note_nested_locations("program body", ast.body().nodes(), de.body().nodes());
         let mut loc_bytes2 = Vec::new();
         de.write_source_locations(&mut loc_bytes2);
         if loc_bytes != loc_bytes2 {
@@ -680,6 +682,7 @@ fn check_module(env: &Env, src: &str, compile: bool) -> Result<(), String> {
             if p0.docs != p1.docs || p0.is_export != p1.is_export || p0.num_locals != p1.num_locals {
                 return Err(format!("[{tag}] proc header of {} differs", p0.name));
             }
+            note_nested_locations(&format!("module proc {}", p0.name), p0.body.nodes(), p1.body.nodes());
         }
         if serialize_imports {
             recompile = Some(de);
@@ -746,6 +749,48 @@ fn truncate(s: String) -> String {
         format!("{} ... [{} chars]", &s[..600], s.len())
     } else {
         s
+    }
+}
+
+// NESTED SOURCE LOCATIONS (strict comparison; CodeBody::eq deliberately ignores a side without locations)
+// ================================================================================================
+
+static NESTED_LOC: std::sync::Mutex<(usize, String)> = std::sync::Mutex::new((0, String::new()));
+
+fn nested_locations(nodes: &[Node], out: &mut Vec<Vec<SourceLocation>>) {
+    for n in nodes {
+        match n {
+            Node::IfElse { true_case, false_case } => {
+                out.push(true_case.source_locations().to_vec());
+                nested_locations(true_case.nodes(), out);
+                out.push(false_case.source_locations().to_vec());
+                nested_locations(false_case.nodes(), out);
+            }
+            Node::Repeat { body, .. } | Node::While { body } => {
+                out.push(body.source_locations().to_vec());
+                nested_locations(body.nodes(), out);
+            }
+            Node::Instruction(_) => {}
+        }
+    }
+}
+
+/// records (without ending the case) a body whose nested blocks lost their locations on reload
+fn note_nested_locations(what: &str, a: &[Node], b: &[Node]) {
+    let (mut l0, mut l1) = (Vec::new(), Vec::new());
+    nested_locations(a, &mut l0);
+    nested_locations(b, &mut l1);
+    if l0 != l1 {
+        let mut g = NESTED_LOC.lock().unwrap();
+        g.0 += 1;
+        if g.1.is_empty() {
+            let i = l0.iter().zip(l1.iter()).position(|(x, y)| x != y).unwrap_or(0);
+            g.1 = format!(
+                "{what}: nested body #{i} had {} locations, reloaded with {}",
+                l0.get(i).map(|v| v.len()).unwrap_or(0),
+                l1.get(i).map(|v| v.len()).unwrap_or(0)
+            );
+        }
     }
 }
 
@@ -1349,6 +1394,14 @@ fn main() {
     probes(&env, &mut rep);
 
     // ----- summary ------------------------------------------------------------------------------
+    {
+        let g = NESTED_LOC.lock().unwrap();
+        rep.record(
+            "nested-locations",
+            "source locations of nested bodies written and reloaded",
+            if g.0 == 0 { Ok(()) } else { Err(format!("{} bodies; first: {}", g.0, g.1)) },
+        );
+    }
     println!("\nSUMMARY checks={} failures={}", rep.checks, rep.failures.len());
     if rep.failures.is_empty() {
         println!("RESULT: PASS");
